@@ -9,9 +9,12 @@ if no task can move by itself, the highest-ranked lock with a non-empty queue ca
 namespace Locks
 
 /-- Invariant tying the dynamic state to the discipline. -/
-structure Inv (s : St) : Prop where
+structure Inv (need : Nat → List Nat) (s : St) : Prop where
   /-- each task's remaining program is disciplined w.r.t. what it holds -/
-  disc : ∀ (i : Nat) (t : Task), s.tasks[i]? = some t → Disciplined t.held t.rest
+  disc : ∀ (i : Nat) (t : Task), s.tasks[i]? = some t → Disciplined need t.held t.rest
+  /-- the remaining actions respect the `need` table (acquisitions listed, waits only for later tasks whose
+  needs are inherited) -/
+  wf : ∀ (i : Nat) (t : Task), s.tasks[i]? = some t → ∀ a ∈ t.rest, actWF need i a = true
   /-- a waiting task is at an acquire and sits in that lock's queue -/
   waitQ : ∀ (i : Nat) (t : Task), s.tasks[i]? = some t → t.waiting = true →
             ∃ l m rest, t.rest = .acq l m :: rest ∧ (i, m) ∈ (s.locks l).queue
@@ -27,37 +30,88 @@ structure Inv (s : St) : Prop where
   /-- only finitely many locks are in use: all queues/holders live below `bound` -/
   bound : ∃ b, ∀ l, b ≤ l → (s.locks l).queue = [] ∧ (s.locks l).holders = []
 
-theorem disciplined_held_nonempty_not_done {held : List Nat} {p : Prog}
-    (h : Disciplined held p) (hne : held ≠ []) : p ≠ [] := by
+theorem disciplined_held_nonempty_not_done {need : Nat → List Nat} {held : List Nat} {p : Prog}
+    (h : Disciplined need held p) (hne : held ≠ []) : p ≠ [] := by
   intro hp; subst hp; simp [Disciplined] at h; exact hne h
 
-/-- Key lemma: if no task can move by itself, the highest-ranked lock with a non-empty queue can
-grant. -/
-theorem progress (s : St) (inv : Inv s) (hnf : ¬ finished s)
-    (hself : ∀ t ∈ s.tasks, selfEnabled t = false) :
-    ∃ l, grantEnabled s l = true := by
-  -- some task is unfinished, hence (not self-enabled) waiting at an acquire, hence some queue is non-empty
-  have hex : ∃ l, (s.locks l).queue ≠ [] := by
-    have hnf' : ∃ t, ¬ (t ∈ s.tasks → t.rest = []) := Classical.not_forall.mp hnf
-    obtain ⟨t, htr⟩ := hnf'
-    have ht : t ∈ s.tasks := Classical.byContradiction fun h => htr (fun h' => absurd h' h)
-    have hrest : t.rest ≠ [] := fun h => htr (fun _ => h)
-    have hs := hself t ht
-    obtain ⟨i, hi⟩ := List.getElem?_of_mem ht
+theorem taskDone_false {ts : List Task} {k : Nat} (h : taskDone ts k = false) :
+    ∃ t, ts[k]? = some t ∧ t.rest ≠ [] := by
+  unfold taskDone at h
+  cases hk : ts[k]? with
+  | none => rw [hk] at h; cases h
+  | some t => rw [hk] at h; exact ⟨t, rfl, by intro e; simp [e] at h⟩
+
+theorem all_false_exists {α} {f : α → Bool} {l : List α} (h : l.all f = false) : ∃ k ∈ l, f k = false := by
+  induction l with
+  | nil => simp at h
+  | cons x xs ih =>
+    simp only [List.all_cons, Bool.and_eq_false_iff] at h
+    rcases h with h | h
+    · exact ⟨x, by simp, h⟩
+    · obtain ⟨k, hk, hf⟩ := ih h; exact ⟨k, by simp [hk], hf⟩
+
+/-- if no task can move by itself, every unfinished task (transitively, through the tasks it waits for) leads
+to a non-empty lock queue among the locks it may need -/
+theorem unfinished_needs_queue {need : Nat → List Nat} (s : St) (inv : Inv need s)
+    (hself : ∀ t ∈ s.tasks, selfEnabled s.tasks t = false) :
+    ∀ (n j : Nat) (t : Task), s.tasks.length - j ≤ n → s.tasks[j]? = some t → t.rest ≠ [] →
+      ∃ l ∈ need j, (s.locks l).queue ≠ [] := by
+  intro n
+  induction n with
+  | zero =>
+    intro j t hn hj _
+    have : j < s.tasks.length := by
+      apply Classical.byContradiction; intro hge
+      have : s.tasks[j]? = none := List.getElem?_eq_none (by omega)
+      rw [this] at hj; cases hj
+    omega
+  | succ n ih =>
+    intro j t hn hj hne
+    have hs := hself t (List.mem_of_getElem? hj)
     cases hr : t.rest with
-    | nil => exact absurd hr hrest
+    | nil => exact absurd hr hne
     | cons a rest =>
       cases a with
       | rel l => simp [selfEnabled, hr] at hs
       | acq l m =>
         have hw : t.waiting = true := by simpa [selfEnabled, hr] using hs
-        obtain ⟨l', m', rest', hr', hq⟩ := inv.waitQ i t hi hw
-        exact ⟨l', by intro h; rw [h] at hq; simp at hq⟩
+        obtain ⟨l', m', rest', hr', hq⟩ := inv.waitQ j t hj hw
+        rw [hr] at hr'; cases hr'
+        have hwf := inv.wf j t hj (.acq l m) (by rw [hr]; simp)
+        simp only [actWF, List.contains_iff_mem] at hwf
+        exact ⟨l, hwf, by intro h; rw [h] at hq; simp at hq⟩
+      | wait ts =>
+        simp only [selfEnabled, hr] at hs
+        obtain ⟨k, hk, hd⟩ := all_false_exists hs
+        obtain ⟨tk, htk, hkne⟩ := taskDone_false hd
+        have hwf := inv.wf j t hj (.wait ts) (by rw [hr]; simp)
+        simp only [actWF, List.all_eq_true, Bool.and_eq_true, decide_eq_true_eq, List.contains_iff_mem] at hwf
+        obtain ⟨hjk, hsub⟩ := hwf k hk
+        have hklt : k < s.tasks.length := by
+          apply Classical.byContradiction; intro hge
+          have : s.tasks[k]? = none := List.getElem?_eq_none (by omega)
+          rw [this] at htk; cases htk
+        obtain ⟨l, hl, hq⟩ := ih k tk (by omega) htk hkne
+        exact ⟨l, hsub l hl, hq⟩
+
+/-- Key lemma: if no task can move by itself, the highest-ranked lock with a non-empty queue can
+grant. -/
+theorem progress {need : Nat → List Nat} (s : St) (inv : Inv need s) (hnf : ¬ finished s)
+    (hself : ∀ t ∈ s.tasks, selfEnabled s.tasks t = false) :
+    ∃ l, grantEnabled s l = true := by
+  -- some task is unfinished, hence some queue is non-empty
+  have hex : ∃ l, (s.locks l).queue ≠ [] := by
+    have hnf' : ∃ t, ¬ (t ∈ s.tasks → t.rest = []) := Classical.not_forall.mp hnf
+    obtain ⟨t, htr⟩ := hnf'
+    have ht : t ∈ s.tasks := Classical.byContradiction fun h => htr (fun h' => absurd h' h)
+    have hrest : t.rest ≠ [] := fun h => htr (fun _ => h)
+    obtain ⟨i, hi⟩ := List.getElem?_of_mem ht
+    obtain ⟨l, _, hq⟩ := unfinished_needs_queue s inv hself s.tasks.length i t (by omega) hi hrest
+    exact ⟨l, hq⟩
   -- take the maximal such lock (exists because of `bound`)
   obtain ⟨b, hb⟩ := inv.bound
   have hmax : ∃ L, (s.locks L).queue ≠ [] ∧ ∀ l, L < l → (s.locks l).queue = [] := by
     obtain ⟨l0, hl0⟩ := hex
-    -- strong induction downward from b
     have : ∀ n, (∀ l, b - n ≤ l → (s.locks l).queue = []) ∨
         ∃ L, (s.locks L).queue ≠ [] ∧ ∀ l, L < l → (s.locks l).queue = [] := by
       intro n
@@ -77,13 +131,12 @@ theorem progress (s : St) (inv : Inv s) (hnf : ¬ finished s)
     · exact h
   obtain ⟨L, hLq, hLmax⟩ := hmax
   refine ⟨L, ?_⟩
-  -- the head of L's queue
   cases hq : (s.locks L).queue with
   | nil => exact absurd hq hLq
   | cons hd tl =>
     obtain ⟨i, m⟩ := hd
     simp only [grantEnabled, hq]
-    -- suppose not compatible: then there is a holder j of L, who must be waiting on a higher lock
+    -- suppose not compatible: then there is a holder j of L, who must be blocked on something above L
     apply Classical.byContradiction
     intro hnc
     have hholder : ∃ j mj, (j, mj) ∈ (s.locks L).holders := by
@@ -108,13 +161,21 @@ theorem progress (s : St) (inv : Inv s) (hnf : ¬ finished s)
         injection hr2 with ha _
         injection ha with hl hm
         subst hl
-        -- discipline: L ∈ held, so L < l'
         rw [hr] at hdisc
         have hlt : L < l' := by
           simp only [Disciplined] at hdisc
           exact hdisc.1 L hheld
         have := hLmax l' hlt
         rw [this] at hq2; simp at hq2
+      | wait ts =>
+        -- the holder waits for an unfinished task, which (transitively) waits in a queue above L
+        simp only [selfEnabled, hr] at hs
+        obtain ⟨k, hk, hd⟩ := all_false_exists hs
+        obtain ⟨tk, htk, hkne⟩ := taskDone_false hd
+        obtain ⟨l, hl, hql⟩ := unfinished_needs_queue s inv hself s.tasks.length k tk (by omega) htk hkne
+        rw [hr] at hdisc
+        have hlt : L < l := hdisc.1 k hk l hl L hheld
+        exact hql (hLmax l hlt)
 
 /-! ## Unpacking `exec` -/
 
@@ -203,17 +264,22 @@ theorem get_set_cases {ts : List Task} {i j : Nat} {t t' x : Task} (h : ts[i]? =
 
 /-! ## Every step preserves the invariant -/
 
-theorem inv_req {s s' : St} {i : Nat} (inv : Inv s) (h : exec s (.req i) = some s') : Inv s' := by
+theorem inv_req {need : Nat → List Nat} {s s' : St} {i : Nat} (inv : Inv need s) (h : exec s (.req i) = some s') :
+    Inv need s' := by
   obtain ⟨t, l, m, rest, ht, hr, hw, rfl⟩ := exec_req h
   have hnotq : ∀ l2 m2, (i, m2) ∉ (s.locks l2).queue := by
     intro l2 m2 hq
     obtain ⟨t2, _, ht2, hw2, _⟩ := inv.qWait l2 i m2 hq
     rw [ht] at ht2; cases ht2; rw [hw] at hw2; cases hw2
-  refine ⟨?_, ?_, ?_, ?_, ?_, ?_, ?_⟩
+  refine ⟨?_, ?_, ?_, ?_, ?_, ?_, ?_, ?_⟩
   · intro j x hx
     rcases get_set_cases ht hx with ⟨rfl, rfl⟩ | ⟨_, hx'⟩
     · exact inv.disc _ t ht
     · exact inv.disc j x hx'
+  · intro j x hx
+    rcases get_set_cases ht hx with ⟨rfl, rfl⟩ | ⟨_, hx'⟩
+    · exact inv.wf _ t ht
+    · exact inv.wf j x hx'
   · intro j x hx hwx
     rcases get_set_cases ht hx with ⟨rfl, rfl⟩ | ⟨_, hx'⟩
     · exact ⟨l, m, rest, hr, by simp [setLock]⟩
@@ -271,7 +337,8 @@ theorem inv_req {s s' : St} {i : Nat} (inv : Inv s) (h : exec s (.req i) = some 
     exact hb l2 (by omega)
 
 
-theorem inv_grant {s s' : St} {l : Nat} (inv : Inv s) (h : exec s (.grant l) = some s') : Inv s' := by
+theorem inv_grant {need : Nat → List Nat} {s s' : St} {l : Nat} (inv : Inv need s) (h : exec s (.grant l) = some s') :
+    Inv need s' := by
   obtain ⟨i, m, tl, t, l0, m0, rest, hq, hc, ht, hr, rfl⟩ := exec_grant h
   -- the head of the queue is task `i` waiting at `acq l m`
   obtain ⟨t0, rest0, ht0, _, hr0⟩ := inv.qWait l i m (by rw [hq]; simp)
@@ -294,11 +361,15 @@ theorem inv_grant {s s' : St} {l : Nat} (inv : Inv s) (h : exec s (.grant l) = s
     exact hl rfl
   have hdisc := inv.disc i t ht
   rw [hr] at hdisc
-  refine ⟨?_, ?_, ?_, ?_, ?_, ?_, ?_⟩
+  refine ⟨?_, ?_, ?_, ?_, ?_, ?_, ?_, ?_⟩
   · intro j x hx
     rcases get_set_cases ht hx with ⟨rfl, rfl⟩ | ⟨_, hx'⟩
     · exact hdisc.2
     · exact inv.disc j x hx'
+  · intro j x hx
+    rcases get_set_cases ht hx with ⟨rfl, rfl⟩ | ⟨_, hx'⟩
+    · intro a ha; exact inv.wf _ t ht a (by rw [hr]; exact List.mem_cons_of_mem _ ha)
+    · exact inv.wf j x hx'
   · intro j x hx hwx
     rcases get_set_cases ht hx with ⟨rfl, rfl⟩ | ⟨hji, hx'⟩
     · cases hwx
@@ -369,7 +440,8 @@ theorem inv_grant {s s' : St} {l : Nat} (inv : Inv s) (h : exec s (.grant l) = s
     simp only [setLock_ne _ _ hne]
     exact hb l2 (by omega)
 
-theorem inv_rel {s s' : St} {i : Nat} (inv : Inv s) (h : exec s (.rel i) = some s') : Inv s' := by
+theorem inv_rel {need : Nat → List Nat} {s s' : St} {i : Nat} (inv : Inv need s) (h : exec s (.rel i) = some s') :
+    Inv need s' := by
   obtain ⟨t, l, rest, ht, hr, rfl⟩ := exec_rel h
   have hw : t.waiting = false := by
     cases hwt : t.waiting with
@@ -390,11 +462,15 @@ theorem inv_rel {s s' : St} {i : Nat} (inv : Inv s) (h : exec s (.rel i) = some 
     by_cases hl : l2 = l
     · subst hl; simp [setLock]
     · simp [setLock, hl]
-  refine ⟨?_, ?_, ?_, ?_, ?_, ?_, ?_⟩
+  refine ⟨?_, ?_, ?_, ?_, ?_, ?_, ?_, ?_⟩
   · intro j x hx
     rcases get_set_cases ht hx with ⟨rfl, rfl⟩ | ⟨_, hx'⟩
     · exact hdisc.2
     · exact inv.disc j x hx'
+  · intro j x hx
+    rcases get_set_cases ht hx with ⟨rfl, rfl⟩ | ⟨_, hx'⟩
+    · intro a ha; exact inv.wf _ t ht a (by rw [hr]; exact List.mem_cons_of_mem _ ha)
+    · exact inv.wf j x hx'
   · intro j x hx hwx
     rcases get_set_cases ht hx with ⟨rfl, rfl⟩ | ⟨hji, hx'⟩
     · cases hwx
@@ -444,14 +520,73 @@ theorem inv_rel {s s' : St} {i : Nat} (inv : Inv s) (h : exec s (.rel i) = some 
     simp only [setLock_ne _ _ hne]
     exact hb l2 (by omega)
 
-theorem inv_exec {s s' : St} (inv : Inv s) {lab : Label} (h : exec s lab = some s') : Inv s' := by
+theorem exec_wait {s s' : St} {i : Nat} (h : exec s (.wait i) = some s') :
+    ∃ t ts rest, s.tasks[i]? = some t ∧ t.rest = .wait ts :: rest ∧ ts.all (taskDone s.tasks) = true ∧
+      s' = { tasks := s.tasks.set i { rest := rest, held := t.held, waiting := t.waiting }, locks := s.locks } := by
+  simp only [exec] at h
+  split at h
+  · rename_i t ht
+    split at h
+    · rename_i ts rest hr
+      split at h
+      · rename_i hall
+        exact ⟨t, ts, rest, ht, hr, hall, by simpa using h.symm⟩
+      · simp at h
+    · simp at h
+  · simp at h
+
+theorem inv_wait {need : Nat → List Nat} {s s' : St} {i : Nat} (inv : Inv need s) (h : exec s (.wait i) = some s') :
+    Inv need s' := by
+  obtain ⟨t, ts, rest, ht, hr, _, rfl⟩ := exec_wait h
+  have hw : t.waiting = false := by
+    cases hwt : t.waiting with
+    | false => rfl
+    | true =>
+      obtain ⟨l2, m2, rest2, hr2, _⟩ := inv.waitQ i t ht hwt
+      rw [hr] at hr2; cases hr2
+  have hnotq : ∀ l2 m2, (i, m2) ∉ (s.locks l2).queue := by
+    intro l2 m2 hq
+    obtain ⟨t2, _, ht2, hw2, _⟩ := inv.qWait l2 i m2 hq
+    rw [ht] at ht2; cases ht2; rw [hw] at hw2; cases hw2
+  have hdisc := inv.disc i t ht
+  rw [hr] at hdisc
+  refine ⟨?_, ?_, ?_, ?_, inv.qNodup, ?_, inv.excl, inv.bound⟩
+  · intro j x hx
+    rcases get_set_cases ht hx with ⟨rfl, rfl⟩ | ⟨_, hx'⟩
+    · exact hdisc.2
+    · exact inv.disc j x hx'
+  · intro j x hx
+    rcases get_set_cases ht hx with ⟨rfl, rfl⟩ | ⟨_, hx'⟩
+    · intro a ha; exact inv.wf _ t ht a (by rw [hr]; exact List.mem_cons_of_mem _ ha)
+    · exact inv.wf j x hx'
+  · intro j x hx hwx
+    rcases get_set_cases ht hx with ⟨rfl, rfl⟩ | ⟨_, hx'⟩
+    · rw [hw] at hwx; cases hwx
+    · exact inv.waitQ j x hx' hwx
+  · intro l2 j mj hqj
+    obtain ⟨t2, rest2, ht2, hw2, hr2⟩ := inv.qWait l2 j mj hqj
+    have hji : j ≠ i := by
+      intro e; subst e; exact hnotq l2 mj hqj
+    exact ⟨t2, rest2, by rw [get_set_ne (fun e => hji e.symm)]; exact ht2, hw2, hr2⟩
+  · intro l2 j mj hh
+    obtain ⟨tj, htj, hheld⟩ := inv.holds l2 j mj hh
+    by_cases hji : j = i
+    · subst hji
+      rw [ht] at htj; cases htj
+      exact ⟨_, get_set_self ht, hheld⟩
+    · exact ⟨tj, by rw [get_set_ne (fun e => hji e.symm)]; exact htj, hheld⟩
+
+theorem inv_exec {need : Nat → List Nat} {s s' : St} (inv : Inv need s) {lab : Label} (h : exec s lab = some s') :
+    Inv need s' := by
   cases lab with
   | req i => exact inv_req inv h
   | grant l => exact inv_grant inv h
   | rel i => exact inv_rel inv h
+  | wait i => exact inv_wait inv h
 
-theorem inv_init (ps : List Prog) (hd : ∀ p ∈ ps, Disciplined [] p) : Inv (init ps) := by
-  refine ⟨?_, ?_, ?_, ?_, ?_, ?_, ?_⟩
+theorem inv_init {need : Nat → List Nat} (ps : List Prog) (hwf : WF need ps)
+    (hd : ∀ p ∈ ps, Disciplined need [] p) : Inv need (init ps) := by
+  refine ⟨?_, ?_, ?_, ?_, ?_, ?_, ?_, ?_⟩
   · intro i t ht
     simp only [init, List.getElem?_map] at ht
     cases hp : ps[i]? with
@@ -459,6 +594,13 @@ theorem inv_init (ps : List Prog) (hd : ∀ p ∈ ps, Disciplined [] p) : Inv (i
     | some p =>
       simp [hp] at ht; subst ht
       exact hd p (List.mem_of_getElem? hp)
+  · intro i t ht
+    simp only [init, List.getElem?_map] at ht
+    cases hp : ps[i]? with
+    | none => simp [hp] at ht
+    | some p =>
+      simp [hp] at ht; subst ht
+      exact hwf i p hp
   · intro i t ht hw
     simp only [init, List.getElem?_map] at ht
     cases hp : ps[i]? with
@@ -470,7 +612,7 @@ theorem inv_init (ps : List Prog) (hd : ∀ p ∈ ps, Disciplined [] p) : Inv (i
   · intro l; left; simp [init, emptyLock, compatible]
   · exact ⟨0, fun l _ => by simp [init, emptyLock]⟩
 
-theorem inv_reachable {s0 s : St} (inv : Inv s0) (h : Reachable s0 s) : Inv s := by
+theorem inv_reachable {need : Nat → List Nat} {s0 s : St} (inv : Inv need s0) (h : Reachable s0 s) : Inv need s := by
   induction h with
   | refl => exact inv
   | step _ hs ih => obtain ⟨lab, hl⟩ := hs; exact inv_exec ih hl
@@ -478,8 +620,8 @@ theorem inv_reachable {s0 s : St} (inv : Inv s0) (h : Reachable s0 s) : Inv s :=
 
 /-! ## Progress as a step, termination measure -/
 
-theorem can_step (s : St) (inv : Inv s) (hnf : ¬ finished s) : ∃ s', Step s s' := by
-  by_cases hself : ∀ t ∈ s.tasks, selfEnabled t = false
+theorem can_step {need : Nat → List Nat} (s : St) (inv : Inv need s) (hnf : ¬ finished s) : ∃ s', Step s s' := by
+  by_cases hself : ∀ t ∈ s.tasks, selfEnabled s.tasks t = false
   · obtain ⟨l, hl⟩ := progress s inv hnf hself
     simp only [grantEnabled] at hl
     cases hq : (s.locks l).queue with
@@ -492,11 +634,11 @@ theorem can_step (s : St) (inv : Inv s) (hnf : ¬ finished s) : ∃ s', Step s s
       have hs : (exec s (.grant l)).isSome = true := by simp [exec, hq, hc, ht, hr]
       obtain ⟨s', hs'⟩ := Option.isSome_iff_exists.mp hs
       exact ⟨s', .grant l, hs'⟩
-  · have : ∃ t, ¬ (t ∈ s.tasks → selfEnabled t = false) := Classical.not_forall.mp hself
+  · have : ∃ t, ¬ (t ∈ s.tasks → selfEnabled s.tasks t = false) := Classical.not_forall.mp hself
     obtain ⟨t, ht⟩ := this
     have htm : t ∈ s.tasks := Classical.byContradiction fun h => ht (fun h' => absurd h' h)
-    have hen : selfEnabled t = true := by
-      cases he : selfEnabled t with
+    have hen : selfEnabled s.tasks t = true := by
+      cases he : selfEnabled s.tasks t with
       | true => rfl
       | false => exact absurd (fun _ => he) ht
     obtain ⟨i, hi⟩ := List.getElem?_of_mem htm
@@ -513,6 +655,11 @@ theorem can_step (s : St) (inv : Inv s) (hnf : ¬ finished s) : ∃ s', Step s s
         have hs : (exec s (.req i)).isSome = true := by simp [exec, hi, hr, hw]
         obtain ⟨s', hs'⟩ := Option.isSome_iff_exists.mp hs
         exact ⟨s', .req i, hs'⟩
+      | wait ts =>
+        have hall : ts.all (taskDone s.tasks) = true := by simpa [selfEnabled, hr] using hen
+        have hs : (exec s (.wait i)).isSome = true := by simp only [exec, hi, hr, hall]; simp
+        obtain ⟨s', hs'⟩ := Option.isSome_iff_exists.mp hs
+        exact ⟨s', .wait i, hs'⟩
 
 theorem sum_set_lt (f : Task → Nat) {ts : List Task} {i : Nat} {t t' : Task}
     (h : ts[i]? = some t) (hlt : f t' < f t) :
@@ -538,6 +685,9 @@ theorem measure_exec {s s' : St} {lab : Label} (h : exec s lab = some s') : meas
   | rel i =>
     obtain ⟨t, l, rest, ht, hr, rfl⟩ := exec_rel h
     exact sum_set_lt taskMeasure ht (by simp [taskMeasure, hr]; omega)
+  | wait i =>
+    obtain ⟨t, ts, rest, ht, hr, _, rfl⟩ := exec_wait h
+    exact sum_set_lt taskMeasure ht (by simp [taskMeasure, hr])
 
 /-- a run of `n` steps -/
 inductive RunN : St → Nat → St → Prop
@@ -576,14 +726,15 @@ theorem conformsB_iff (sites : List Site) (held : List Nat) (p : Prog) :
       · rintro ⟨⟨s, hs, h1, h2, h3⟩, h4⟩
         exact ⟨⟨s, hs, ⟨h1, h2⟩, h3⟩, h4⟩
     | rel l => simp [conformsB, Conforms, ih]
+    | wait ts => simp [conformsB, Conforms, ih]
 
 instance (sites : List Site) (held : List Nat) (p : Prog) : Decidable (Conforms sites held p) :=
   decidable_of_iff _ (conformsB_iff sites held p)
 
 /-- if every site of the table respects the global order, every program that follows the table is
 disciplined -/
-theorem conforms_disciplined (sites : List Site) (hok : ∀ s ∈ sites, s.ok = true)
-    (held : List Nat) (p : Prog) (h : Conforms sites held p) : Disciplined held p := by
+theorem conforms_disciplined (need : Nat → List Nat) (sites : List Site) (hok : ∀ s ∈ sites, s.ok = true)
+    (held : List Nat) (p : Prog) (h : Conforms sites held p) : Disciplined need held p := by
   induction p generalizing held with
   | nil => exact h
   | cons a rest ih =>
@@ -596,16 +747,20 @@ theorem conforms_disciplined (sites : List Site) (hok : ∀ s ∈ sites, s.ok = 
       simp only [Site.ok, List.all_eq_true, decide_eq_true_eq] at this
       rw [← hl]; exact this x (hsub x hx)
     | rel l => exact ⟨h.1, ih _ h.2⟩
+    | wait ts =>
+      obtain ⟨hh, hrest⟩ := h
+      subst hh
+      exact ⟨fun _ _ _ _ _ hx => by simp at hx, ih _ hrest⟩
 
 
 /-! ## Locks outside the programs stay untouched; soundness of the `stuck` test -/
 
 /-- all remaining actions mention locks `< nl`, and locks `≥ nl` are untouched -/
 def Below (nl : Nat) (s : St) : Prop :=
-  (∀ (i : Nat) (t : Task), s.tasks[i]? = some t → ∀ a ∈ t.rest, a.lock < nl) ∧
+  (∀ (i : Nat) (t : Task), s.tasks[i]? = some t → ∀ a ∈ t.rest, a.below nl) ∧
   (∀ l, nl ≤ l → (s.locks l).queue = [] ∧ (s.locks l).holders = [])
 
-theorem below_init (nl : Nat) (ps : List Prog) (h : ∀ p ∈ ps, ∀ a ∈ p, a.lock < nl) :
+theorem below_init (nl : Nat) (ps : List Prog) (h : ∀ p ∈ ps, ∀ a ∈ p, a.below nl) :
     Below nl (init ps) := by
   refine ⟨?_, fun l _ => by simp [init, emptyLock]⟩
   intro i t ht
@@ -654,6 +809,13 @@ theorem below_exec {nl : Nat} {s s' : St} {lab : Label} (hb : Below nl s) (h : e
     · intro l2 hl2
       have : l2 ≠ l := by omega
       simp only [setLock_ne _ _ this]; exact hk l2 hl2
+  | wait i =>
+    obtain ⟨t, ts, rest, ht, hr, _, rfl⟩ := exec_wait h
+    refine ⟨?_, hk⟩
+    intro j x hx
+    rcases get_set_cases ht hx with ⟨rfl, rfl⟩ | ⟨_, hx'⟩
+    · intro a ha; exact hp _ t ht a (by rw [hr]; exact List.mem_cons_of_mem _ ha)
+    · exact hp j x hx'
 
 theorem below_run {nl : Nat} {s s' : St} {sched : List Label} (hb : Below nl s)
     (h : run s sched = some s') : Below nl s' := by
@@ -699,5 +861,57 @@ theorem stuck_sound {nl : Nat} {s : St} (hb : Below nl s) (h : stuck s nl = true
       · exact hall _ (by simp [allLabels, hi])
       · have : s.tasks[i]? = none := List.getElem?_eq_none (by omega)
         simp [exec, this]
+    | wait i =>
+      by_cases hi : i < s.tasks.length
+      · exact hall _ (by simp [allLabels, hi])
+      · have : s.tasks[i]? = none := List.getElem?_eq_none (by omega)
+        simp [exec, this]
+
+
+/-! ## The coarsest `need` table -/
+
+/-- every wait is for tasks spawned later -/
+def WaitsForward (ps : List Prog) : Prop :=
+  ∀ (j : Nat) (p : Prog), ps[j]? = some p → ∀ ts, Act.wait ts ∈ p → ∀ k ∈ ts, j < k
+
+theorem wf_allNeed (ps : List Prog) (hf : WaitsForward ps) : WF (allNeed ps) ps := by
+  intro j p hp a ha
+  cases a with
+  | acq l m =>
+    simp only [actWF, allNeed, List.contains_iff_mem, List.mem_flatMap]
+    exact ⟨p, List.mem_of_getElem? hp, by simp only [acqLocks, List.mem_filterMap]; exact ⟨_, ha, rfl⟩⟩
+  | rel l => rfl
+  | wait ts =>
+    simp only [actWF, List.all_eq_true, Bool.and_eq_true, decide_eq_true_eq, List.contains_iff_mem]
+    intro k hk
+    exact ⟨hf j p hp ts ha k hk, fun l hl => hl⟩
+
+theorem wfB_iff (need : Nat → List Nat) (ps : List Prog) : wfB need ps = true ↔ WF need ps := by
+  simp only [wfB, WF, List.all_eq_true, List.mem_range]
+  constructor
+  · intro h j p hp a ha
+    have hj : j < ps.length := by
+      apply Classical.byContradiction; intro hn
+      have : ps[j]? = none := List.getElem?_eq_none (by omega)
+      rw [this] at hp; cases hp
+    have := h j hj
+    rw [hp] at this
+    exact List.all_eq_true.mp this a ha
+  · intro h j _
+    cases hp : ps[j]? with
+    | none => rfl
+    | some p => exact List.all_eq_true.mpr (fun a ha => h j p hp a ha)
+
+instance (need : Nat → List Nat) (ps : List Prog) : Decidable (WF need ps) :=
+  decidable_of_iff _ (wfB_iff need ps)
+
+/-- an allowed await that is not time-bounded satisfies the `wait` clause of `Disciplined` -/
+theorem await_allowed_sound (a : AwaitSite) (h : a.allowed = true) (hb : a.bounded = false) :
+    ∀ l ∈ a.needs, ∀ x ∈ a.held, x < l := by
+  simp only [AwaitSite.allowed, hb, Bool.or_false, Bool.or_eq_true, List.isEmpty_iff, List.all_eq_true,
+    decide_eq_true_eq] at h
+  rcases h with h | h
+  · intro l _ x hx; rw [h] at hx; simp at hx
+  · exact h
 
 end Locks
